@@ -27,13 +27,24 @@ type Options struct {
 
 type workItem struct {
 	Path []sim.Event `json:"path"`
+	// NewTail: see DFS.NewTail (items handed back by a worker)
+	NewTail bool `json:"new_tail,omitempty"`
 }
 
 type workResult struct {
 	Stats  Stats    `json:"stats"`
 	Founds []*Found `json:"founds"`
 	Err    string   `json:"err,omitempty"`
+	// More: the part of the item's subtree that the worker did not finish
+	// within its time slice, as new items
+	More []workItem `json:"more,omitempty"`
 }
+
+// workSlice is the time after which a worker hands the rest of a subtree back
+// to the pool. Deviation-bounded searches are very skewed (most of the work
+// sits under the default path), so static frontier items alone leave most
+// workers idle.
+const workSlice = 2 * time.Second
 
 // Result of a suite run.
 type Result struct {
@@ -44,6 +55,7 @@ type Result struct {
 	Exhaustive    bool
 	Frontier      int
 	FrontierDepth int
+	Resplit       int // work items handed back by workers (dynamic load balancing)
 	Wall          float64
 }
 
@@ -122,7 +134,9 @@ func runWorkers(s *Suite, o Options, vpath string, items []workItem, res *Result
 		return err
 	}
 	var mu sync.Mutex
+	cond := sync.NewCond(&mu)
 	next := 0
+	busy := 0
 	stop := false
 	var firstErr error
 	var wg sync.WaitGroup
@@ -143,34 +157,42 @@ func runWorkers(s *Suite, o Options, vpath string, items []workItem, res *Result
 			}
 			rd := bufio.NewReaderSize(out, 1<<20)
 			enc := json.NewEncoder(in)
+			fail := func(err error, halt bool) {
+				mu.Lock()
+				firstErr = err
+				if halt {
+					stop = true
+				}
+				busy--
+				cond.Broadcast()
+				mu.Unlock()
+			}
 			for {
 				mu.Lock()
+				// wait for work: other workers may still hand parts of their items back
+				for next >= len(items) && busy > 0 && !stop {
+					cond.Wait()
+				}
 				if next >= len(items) || stop {
 					mu.Unlock()
 					break
 				}
 				it := items[next]
 				next++
+				busy++
 				mu.Unlock()
 				if err := enc.Encode(it); err != nil {
-					mu.Lock()
-					firstErr = fmt.Errorf("worker %d: %w", w, err)
-					mu.Unlock()
+					fail(fmt.Errorf("worker %d: %w", w, err), false)
 					break
 				}
 				line, err := rd.ReadBytes('\n')
 				if err != nil {
-					mu.Lock()
-					firstErr = fmt.Errorf("worker %d died: %w", w, err)
-					stop = true
-					mu.Unlock()
+					fail(fmt.Errorf("worker %d died: %w", w, err), true)
 					break
 				}
 				var r workResult
 				if err := json.Unmarshal(line, &r); err != nil {
-					mu.Lock()
-					firstErr = fmt.Errorf("worker %d: bad result: %w", w, err)
-					mu.Unlock()
+					fail(fmt.Errorf("worker %d: bad result: %w", w, err), false)
 					break
 				}
 				mu.Lock()
@@ -180,14 +202,21 @@ func runWorkers(s *Suite, o Options, vpath string, items []workItem, res *Result
 				}
 				res.Stats.Merge(&r.Stats)
 				res.Founds = append(res.Founds, r.Founds...)
+				items = append(items, r.More...)
+				res.Resplit += len(r.More)
 				if len(r.Founds) > 0 && o.StopFirst {
 					stop = true
 				}
 				if r.Stats.DeadlineHit {
 					stop = true
 				}
+				busy--
+				cond.Broadcast()
 				mu.Unlock()
 			}
+			mu.Lock()
+			cond.Broadcast()
+			mu.Unlock()
 			in.Close()
 			cmd.Wait()
 		}(w)
@@ -238,7 +267,7 @@ func WorkerMain(args []string, lookup func(name string) *Suite, classify func(*F
 					r.Err = fmt.Sprint(p)
 				}
 			}()
-			d := &DFS{S: s, V: v, Deadline: time.Unix(0, deadline)}
+			d := &DFS{S: s, V: v, Deadline: time.Unix(0, deadline), Slice: workSlice, NewTail: it.NewTail}
 			if ps := os.Getenv("VERIF_PROPS"); ps != "" {
 				d.Props = strings.Split(ps, ",")
 			}
@@ -249,6 +278,9 @@ func WorkerMain(args []string, lookup func(name string) *Suite, classify func(*F
 			}
 			d.Run(it.Path)
 			r.Stats = d.Stats
+			for _, p := range d.Exported {
+				r.More = append(r.More, workItem{Path: p, NewTail: true})
+			}
 		}()
 		b, _ := json.Marshal(&r)
 		out.Write(b)
